@@ -15,6 +15,7 @@ import (
 	"os"
 	"path"
 	"path/filepath"
+	"regexp"
 	"strings"
 	"sync"
 	"time"
@@ -268,15 +269,24 @@ func cmdAuth(args []string) error {
 					}
 				}
 			}
-			// occasionally reload the configuration (same file, or a variant with another tolerance)
+			// occasionally reload the configuration: the same file, or the same file with another HMAC tolerance
 			if r.chance(7) {
-				changed := false
-				if r.chance(40) {
-					sc2 := genAuthConfig(newRng(r.u64()), clock.now, stub.srv.URL, 1)
-					_ = sc2
+				newTol := sc.hm.Tol
+				if r.chance(45) {
+					tolS := pick(r, []int{2, 5, 10, 30, 300, 420, 720})
+					re := regexp.MustCompile(`(?m)^    tolerance \d+s\n`)
+					txt := re.ReplaceAllString(sc.text, "")
+					txt = strings.Replace(txt, "  auth hmac {\n", fmt.Sprintf("  auth hmac {\n    tolerance %ds\n", tolS), 1)
+					if err := os.WriteFile(cfgPath, []byte(txt), 0o600); err == nil {
+						sc.text = txt
+						newTol = int64(tolS) * sec
+					}
 				}
 				ok := rt.Reload(cfgPath)
-				emit(map[string]interface{}{"k": "areload", "now": clock.now, "ok": ok, "changed": changed})
+				if ok {
+					sc.hm.Tol = newTol
+				}
+				emit(map[string]interface{}{"k": "areload", "now": clock.now, "ok": ok, "tol": sc.hm.Tol})
 			}
 			kind := r.weighted([]int{55, 15, 20, 10}) // hmac, basic, forward, open
 			body := []byte(pick(r, []string{"{}", "", "{\"a\":1}", "\x00\xff\x10", strings.Repeat("x", 100)}))
